@@ -32,6 +32,7 @@ pub const TARGETS: &[Target] = &[
     ("scopeimports", "ScopeImportsLoop", scopeimports as Gen),
     ("scoperesolve", "ScopeResolveLoop", scoperesolve as Gen),
     ("scopepath", "ScopePathLoop", scopepath as Gen),
+    ("scopeimportone", "ScopeImportOne", scopeimportone as Gen),
 ];
 
 fn codes(s: &str) -> String {
@@ -860,5 +861,90 @@ fn scopepath(repo: &Path) -> Result<String, String> {
     out.push_str(&format!("/-- the statements between the two loops -/\ndef betweenBody : PBlock :=\n  {s}\n\n"));
     out.push_str(&format!("/-- the body of the final `loop` -/\ndef loopBody : PBlock :=\n  {l}\n\n"));
     out.push_str("end RotoV.Gen.ScopePathLoop\n");
+    Ok(out)
+}
+
+// ---------------------------------------------------------------- `import`
+//
+// `TypeChecker::import` (src/typechecker/mod.rs): its statements as steps of
+// `lean/RotoV/Model/ScopeImportOne.lean`; `RotoV.C13.import_as_modelled` proves
+// that they mean `Scope.importOne`.  `ScopeGraph::insert_import`: the table it
+// writes and the key.
+
+fn scopeimportone(repo: &Path) -> Result<String, String> {
+    let mod_rs = find::parse(repo, "src/typechecker/mod.rs")?;
+    let f = find::func(&mod_rs, "import", Some("TypeChecker"))?;
+    let params: Vec<String> = f.sig.inputs.iter().filter_map(|a| match a {
+        syn::FnArg::Typed(t) => Some(flat(&t.pat)),
+        _ => None,
+    }).collect();
+    if params != ["scope", "path"] {
+        return Err(format!("import: parameters {params:?}, expected scope, path"));
+    }
+    let stmts: Vec<&syn::Stmt> = f.block.stmts.iter().filter(|s| !matches!(s, syn::Stmt::Local(l) if is_hook(&l.attrs))).collect();
+    let Some((first, rest)) = stmts.split_first() else { return Err("import: empty body".into()) };
+    if flat(*first) != "letmutidents=path.idents.iter();" {
+        return Err(format!("import: the body does not start with `let mut idents = path.idents.iter();` but `{}`", flat(*first)));
+    }
+    let mut steps: Vec<&str> = vec![];
+    // the names bound to the resolved identifier and declaration
+    let mut bound: Option<(String, String)> = None;
+    for (k, st) in rest.iter().enumerate() {
+        let last = k + 1 == rest.len();
+        match st {
+            syn::Stmt::Local(l) => {
+                let syn::Pat::Tuple(t) = &l.pat else { return Err(format!("import: `{}` outside the subset", flat(l))) };
+                let names: Vec<String> = t.elems.iter().map(|p| flat(p)).collect();
+                let init = l.init.as_ref().map(|i| flat(&i.expr)).unwrap_or_default();
+                if names.len() != 2 || names.iter().any(|n| !n.chars().all(|c| c.is_alphanumeric() || c == '_')) || init != "self.resolve_module_part_of_path(scope,&mutidents)?" || bound.is_some() {
+                    return Err(format!("import: `{}` outside the subset", flat(l)));
+                }
+                bound = Some((names[0].clone(), names[1].clone()));
+                steps.push(".resolve");
+            }
+            syn::Stmt::Expr(syn::Expr::If(i), _) if !last => {
+                let Some((a, b)) = &bound else { return Err("import: leftover test before the path is resolved".into()) };
+                let ok_cond = match &*i.cond {
+                    syn::Expr::Let(l) => {
+                        flat(&l.expr) == "idents.next()" && matches!(&*l.pat, syn::Pat::TupleStruct(ts) if flat(&ts.path) == "Some" && ts.elems.len() == 1
+                            && matches!(&ts.elems[0], syn::Pat::Wild(_) | syn::Pat::Ident(_)))
+                    }
+                    c => flat(c) == "idents.next().is_some()",
+                };
+                if !ok_cond || i.else_branch.is_some() || flat(&i.then_branch) != format!("{{returnErr(self.error_expected_module({a},{b}));}}") {
+                    return Err(format!("import: `if {} …` outside the subset", flat(&i.cond)));
+                }
+                steps.push(".leftoverIsError");
+            }
+            syn::Stmt::Expr(e, None) if last => {
+                let Some((a, b)) = &bound else { return Err("import: insert before the path is resolved".into()) };
+                let want = format!("self.type_info.scope_graph.insert_import(scope,{a}.id,{b}.name).map_err(|old|self.error_declared_twice({a},old))");
+                if flat(e) != want {
+                    return Err(format!("import: tail expression `{}` outside the subset", flat(e)));
+                }
+                steps.push(".insert");
+            }
+            other => return Err(format!("import: statement `{}` outside the subset", flat(*other))),
+        }
+    }
+    // `insert_import`: writes `self.scopes[scope.0].imports`, keyed by `name.ident`, stores `(id, name)`,
+    // an occupied entry is the error
+    let scope_rs = find::parse(repo, "src/typechecker/scope.rs")?;
+    let f = find::func(&scope_rs, "insert_import", Some("ScopeGraph"))?;
+    let txt = flat(&f.block);
+    let params: Vec<String> = f.sig.inputs.iter().filter_map(|a| match a {
+        syn::FnArg::Typed(t) => Some(flat(&t.pat)),
+        _ => None,
+    }).collect();
+    let as_modelled = params == ["scope", "id", "name"]
+        && txt.contains("&mutself.scopes[scope.0].imports")
+        && txt.matches(".entry(name.ident)").count() == 1
+        && txt.contains("Entry::Occupied(entry)=>Err(entry.get().0)")
+        && txt.contains("entry.insert((id,name));Ok(())");
+    let mut out = String::new();
+    out.push_str("/- GENERATED by /verif/extract from src/typechecker/{mod,scope}.rs — do not edit. -/\nimport RotoV.Model.ScopeImportOne\n\nnamespace RotoV.Gen.ScopeImportOne\nopen RotoV.Scope.ImportOne\n\n");
+    out.push_str(&format!("/-- the statements of `TypeChecker::import` after `let mut idents = path.idents.iter();` -/\ndef importSteps : List IStep := [{}]\n\n", steps.join(", ")));
+    out.push_str(&format!("/-- `insert_import` writes the table of `scope`, keyed by the identifier of the target name; an occupied entry is the error -/\ndef insertImportAsModelled : Bool := {as_modelled}\n\n"));
+    out.push_str("end RotoV.Gen.ScopeImportOne\n");
     Ok(out)
 }
